@@ -127,8 +127,62 @@ def respell(text, mask):
     return text.replace('"%s"' % key, '"%s"' % spelled)
 
 
-def check_on(name, args, depth, side, version=2.0, spell=0):
+PRIORS = ["none", "none", "dumped-homonym", "sent-homonym", "dumped-other", "loaded-valid"]
+_prior_keepalive = []
+
+
+def prior_activity(prior, name):
+    """What this process did with the translator before the descriptor arrives:
+    nothing; dumped (or sent as a parameter) an instance of an existing class
+    whose emitted name is exactly the invalid name (a legal non-ASCII
+    identifier, or a class made with type()); dumped another bean; loaded a
+    valid descriptor.  Returns the homonym class (constructions counted) or None"""
+    from jsonrpclib import jsonclass as JC, jsonrpc as J
+
+    if prior in (None, "none"):
+        return None
+    if prior == "loaded-valid":
+        JC.load({"__jsonclass__": ["decimal.Decimal", ["1"]]})
+        return None
+    if prior == "dumped-other":
+        cls = type("Other", (object,), {"__module__": "__main__"})
+        JC.dump(cls())
+        return None
+    made = [0]
+
+    def __init__(self, *a, **k):
+        made[0] += 1
+    try:
+        cls = type(name, (object,), {"__module__": "__main__", "__init__": __init__})
+    except (ValueError, TypeError, UnicodeError):
+        return None   # no class can carry this name
+    cls._made = made
+    obj = cls()
+    try:
+        if prior == "dumped-homonym":
+            JC.dump([obj, {"k": obj}])
+        else:
+            J.dumps([obj], "method")
+    except Exception:
+        return None
+    made[0] = 0
+    del _prior_keepalive[:]
+    _prior_keepalive.append((cls, obj))
+    return cls
+
+
+def check_on(name, args, depth, side, version=2.0, spell=0, prior=None):
     """A well-formed descriptor [name, args] with an invalid name"""
+    try:
+        homonym = prior_activity(prior, name)
+        _check_on(name, args, depth, side, version, spell)
+        if homonym is not None and homonym._made[0]:
+            fail("C08/invalid-name-constructed", "an existing class named %r was instantiated %d times for a descriptor with that (invalid) name" % (name, homonym._made[0]))
+    finally:
+        del _prior_keepalive[:]
+
+
+def _check_on(name, args, depth, side, version=2.0, spell=0):
     from jsonrpclib import jsonclass as JC, jsonrpc as J
     from jsonrpclib.config import Config
 
@@ -165,8 +219,11 @@ def check_on(name, args, depth, side, version=2.0, spell=0):
 def names_cases(tier):
     maxlen = 3 if tier == "quick" else 4
     for L in range(0, maxlen + 1):
-        for tup in itertools.product(range(len(ALPHA)), repeat=L):
+        for n, tup in enumerate(itertools.product(range(len(ALPHA)), repeat=L)):
             yield ("name", tup)
+            if L <= 2 or n % 7 == 0:
+                # the same name after this process dumped an existing class of that name
+                yield ("name", tup, "dumped-homonym")
 
 
 def oracle_names(case):
@@ -174,9 +231,9 @@ def oracle_names(case):
     name = "".join(ALPHA[i] for i in case[1])
     if not invalid_name(name):
         raise Skip()
-    check_on(name, [], 2, "load")
-    cleaned = re.sub(r"[^a-zA-Z0-9_.]", "", name)
-    return Info(nt=True, classes=["len:%d" % len(name), "exhaustive-name"], key=name, sample=repr(name))
+    prior = case[2] if len(case) > 2 else "none"
+    check_on(name, [], 2, "load", prior=prior)
+    return Info(nt=True, classes=["len:%d" % len(name), "exhaustive-name", "prior:" + prior], key=(name, prior), sample=repr(name))
 
 
 def inject(base, i, ch):
@@ -202,7 +259,8 @@ def random_on_cases(draw):
         name = draw(st.text(min_size=1, max_size=12).filter(invalid_name))
     return {"name": name, "args": draw(st.sampled_from([[], {}, [1], {"a": 1}])), "depth": draw(st.integers(0, 4)),
             "side": draw(st.sampled_from(["load", "client", "server"])), "version": draw(st.sampled_from([1.0, 2.0])), "kind": kind,
-            "spell": draw(st.one_of(st.just(0), st.just(0), st.integers(1, 2 ** 13 - 1)))}
+            "spell": draw(st.one_of(st.just(0), st.just(0), st.integers(1, 2 ** 13 - 1))),
+            "prior": draw(st.sampled_from(PRIORS))}
 
 
 def oracle_random_on(case):
@@ -210,10 +268,10 @@ def oracle_random_on(case):
     name = case["name"]
     if not invalid_name(name):
         raise Skip()
-    check_on(name, case["args"], case["depth"], case["side"], case["version"], case.get("spell", 0))
+    check_on(name, case["args"], case["depth"], case["side"], case["version"], case.get("spell", 0), case.get("prior"))
     cleaned = re.sub(r"[^a-zA-Z0-9_.]", "", name)
     resolves = cleaned in CANARIES or cleaned in ("decimal.Decimal", "os.system", "subprocess.Popen", "builtins.eval")
-    return Info(nt=case["depth"] >= 1 or resolves, classes=["on", "side:" + case["side"], "kind:" + case["kind"], "depth:%d" % case["depth"]] + (["resolves-if-cleaned"] if resolves else []) + (["escaped-member-name"] if case.get("spell") and case["side"] != "load" else []),
+    return Info(nt=case["depth"] >= 1 or resolves, classes=["on", "side:" + case["side"], "kind:" + case["kind"], "depth:%d" % case["depth"], "prior:" + (case.get("prior") or "none")] + (["resolves-if-cleaned"] if resolves else []) + (["escaped-member-name"] if case.get("spell") and case["side"] != "load" else []),
                 sample={"name": name, "depth": case["depth"], "side": case["side"]})
 
 
@@ -283,7 +341,8 @@ def off_cases(draw):
     d = draw(st.dictionaries(st.sampled_from(["x", "y"]), gen.json_values(2), max_size=2))
     d["__jsonclass__"] = desc
     payload = wrap_payload(d, draw(st.integers(0, 4)), draw(st.sampled_from(["list", "dict"])))
-    return {"payload": payload, "side": draw(st.sampled_from(["client", "server", "load", "proxy-late-off"])), "version": draw(st.sampled_from([1.0, 2.0])),
+    return {"payload": payload, "side": draw(st.sampled_from(["client", "server", "load", "proxy-late-off", "proxy-off"])), "version": draw(st.sampled_from([1.0, 2.0])),
+            "mc_config": draw(st.booleans()),
             "forced_version": draw(st.sampled_from([None, 1.0, 2.0])),
             "canary": isinstance(desc, list) and bool(desc) and desc[0] in CANARIES,
             "spell": draw(st.one_of(st.just(0), st.integers(1, 2 ** 13 - 1)))}
@@ -296,10 +355,10 @@ def oracle_off(case):
 
     cfg = Config(version=case["version"], use_jsonclass=False)
     payload = case["payload"]
-    if case["side"] == "proxy-late-off":
-        # the documented way: build the proxy, then set config.use_jsonclass = False
+    if case["side"] in ("proxy-late-off", "proxy-off"):
+        # the documented way: build the proxy, then set config.use_jsonclass = False (or hand over a Config that is off)
         from vlib.loopback import CannedTransport
-        late = Config(version=case["version"])
+        late = Config(version=case["version"], use_jsonclass=case["side"] == "proxy-late-off")
         tr = CannedTransport(late)
         proxy = J.ServerProxy("http://loopback/", transport=tr, config=late, version=case.get("forced_version"))
         late.use_jsonclass = False
@@ -309,7 +368,8 @@ def oracle_off(case):
         if r[0] != "ret" or not gen.strict_eq(r[1], json.loads(text)["result"]):
             fail("C08/off-not-plain-json", "a proxy whose Config was switched off returned %r for %r" % (r[1], text[:200]))
         tr.reply = "[%s]" % text
-        mc = J.MultiCall(proxy, late)
+        # MultiCall(proxy) as in the README, or with the proxy's Config repeated
+        mc = J.MultiCall(proxy, late) if case.get("mc_config", True) else J.MultiCall(proxy)
         mc.a()
         r2, evs2, imps2, made2 = observe(lambda: list(mc()))
         evs, imps, made = evs + evs2, imps + imps2, made + made2
